@@ -41,7 +41,7 @@ const fn p(name: &'static str, template: &'static str, in_expression: bool, expe
     Position { name, template, in_expression, expect }
 }
 
-const POSITIONS: [Position; 52] = [
+const POSITIONS: [Position; 62] = [
     p("declare", "DECLARE {} REAL[2]", false, 1),
     p("sharing", "DECLARE a BIT SHARING {}", false, 1),
     p("sharing-offset", "DECLARE a BIT SHARING {} OFFSET 1 BIT", false, 1),
@@ -94,6 +94,16 @@ const POSITIONS: [Position; 52] = [
     p("pragma-argument", "PRAGMA P {} 1 {}", false, 2),
     p("call", "CALL {} {} {}[1]", false, 3),
     p("measure-name", "MEASURE!{} 0 ro", false, 1),
+    p("qubit-variable-gate", "CNOT 0 {}", false, 1),
+    p("qubit-variable-measure", "MEASURE {} ro", false, 1),
+    p("qubit-variable-reset", "RESET {}", false, 1),
+    p("qubit-variable-fence", "FENCE 0 {}", false, 1),
+    p("qubit-variable-pulse", "PULSE {} \"f\" w", false, 1),
+    p("qubit-variable-set-phase", "SET-PHASE {} \"f\" 1.0", false, 1),
+    p("qubit-variable-delay", "DELAY {} 1.0", false, 1),
+    p("qubit-variable-delay-grouped", "DELAY {} (2*pi)", false, 1),
+    p("qubit-variable-delay-two", "DELAY 0 {} (1+2)", false, 1),
+    p("qubit-variable-delay-frames", "DELAY {} \"f\" 2*pi", false, 1),
 ];
 
 fn addresses(e: &Expression, out: &mut Vec<String>) {
@@ -248,6 +258,18 @@ fn extract(position: &str, i: &Instruction) -> Option<Vec<String>> {
             v
         }
         ("measure-name", Instruction::Measurement(m)) => vec![m.name.clone()?],
+        (
+            "qubit-variable-gate" | "qubit-variable-measure" | "qubit-variable-reset" | "qubit-variable-fence" | "qubit-variable-pulse"
+            | "qubit-variable-set-phase" | "qubit-variable-delay" | "qubit-variable-delay-grouped" | "qubit-variable-delay-two"
+            | "qubit-variable-delay-frames",
+            i,
+        ) => {
+            let qs: Vec<Qubit> = match i {
+                Instruction::SetPhase(s) => s.frame.qubits.clone(),
+                other => other.get_qubits().into_iter().cloned().collect(),
+            };
+            qs.iter().filter_map(|q| if let Qubit::Variable(v) = q { Some(v.clone()) } else { None }).collect()
+        }
         _ => return None,
     })
 }
@@ -381,7 +403,7 @@ impl Property for C06Prop {
         "C06"
     }
     fn rule(&self) -> &'static str {
-        "identifier x position: identifiers are a fixed list of mixed-case / dashed / near-reserved spellings (Theta, RO, a-b, Q-Ubit-9, PI_, Sin2, i0, ...) or random identifiers [A-Za-z_]([A-Za-z0-9_-]*[A-Za-z0-9_])? of length 1..10 that are not reserved tokens (and, in expression positions, not a case variant of pi / i / sin / cos / sqrt / exp / cis); 52 positions: DECLARE name, SHARING name, every classical operand, LOAD/STORE regions, MEASURE / CAPTURE / RAW-CAPTURE targets, jump conditions, bare and indexed names inside expressions (gate parameter, nested, frame update, DELAY, waveform parameter), LABEL / JUMP* targets, gate name (application, modified, DEFGATE, sequence element, DEFCAL, DEFCIRCUIT), %parameter names and qubit variables of each definition kind, DEFCAL MEASURE qubit and target, waveform names and parameter keys, frame attribute keys, PRAGMA name and arguments, CALL name and arguments, MEASURE!name. Non-trivial = the identifier has an uppercase letter or a dash; distinct by (position, identifier)."
+        "identifier x position: identifiers are a fixed list of mixed-case / dashed / near-reserved spellings (Theta, RO, a-b, Q-Ubit-9, PI_, Sin2, i0, ...) or random identifiers [A-Za-z_]([A-Za-z0-9_-]*[A-Za-z0-9_])? of length 1..10 that are not reserved tokens (and, in expression positions, not a case variant of pi / i / sin / cos / sqrt / exp / cis); 62 positions: DECLARE name, SHARING name, every classical operand, LOAD/STORE regions, MEASURE / CAPTURE / RAW-CAPTURE targets, jump conditions, bare and indexed names inside expressions (gate parameter, nested, frame update, DELAY, waveform parameter), LABEL / JUMP* targets, gate name (application, modified, DEFGATE, sequence element, DEFCAL, DEFCIRCUIT), %parameter names and qubit variables of each definition kind, DEFCAL MEASURE qubit and target, waveform names and parameter keys, frame attribute keys, PRAGMA name and arguments, CALL name and arguments, MEASURE!name, and qubit variables of body instructions (gate, MEASURE, RESET, FENCE, PULSE, SET-PHASE and four DELAY forms). Non-trivial = the identifier has an uppercase letter or a dash; distinct by (position, identifier)."
     }
     fn max_words(&self) -> usize {
         40
